@@ -885,4 +885,305 @@ Section Inner.
         specialize (Hmax r0 (in_or_app _ _ _ (or_intror Hin))). lia. }
       specialize (Hperm SR). rewrite E, app_nil_r in Hperm. apply consolidate_perm. exact Hperm.
   Qed.
+
+  (* ---- which steps end with a watermark ---- *)
+  Lemma receive_is_rec s r flag st st' o : receive recv s r flag st = (st', o) -> Forall is_rec o.
+  Proof.
+    unfold receive. destruct (stopped st); [intro H; inversion H; constructor|].
+    destruct (recv _ _ _ _ _) as [[t' ro]|e|site]; intro H; inversion H; subst; try constructor. apply Forall_is_rec_map.
+  Qed.
+
+  Lemma receive_all_is_rec s flag rs : forall st st' o, receive_all recv s flag rs st = (st', o) -> Forall is_rec o.
+  Proof.
+    induction rs as [|r rs IH]; intros st st' o H; [inversion H; constructor|].
+    cbn [receive_all] in H. destruct (receive recv s r flag st) as [st1 o1] eqn:R1.
+    destruct (receive_all recv s flag rs st1) as [st2 o2] eqn:R2. inversion H; subst.
+    apply Forall_app. split; [eapply receive_is_rec; eauto | eapply IH; eauto].
+  Qed.
+
+  Lemma process_is_rec w flag st st' o : process_up_to recv w flag st = (st', o) -> Forall is_rec o.
+  Proof.
+    unfold process_up_to, flush_side. intro H.
+    destruct (tree_nil (other SL) st).
+    - destruct (tree_nil (other SR) st).
+      + inversion H; constructor.
+      + destruct (buf_emit w (buf_of SR st)) as [e2 r2]. destruct (receive_all recv SR flag e2 _) as [st2 o2] eqn:R2.
+        inversion H; subst. simpl. eapply receive_all_is_rec; eauto.
+    - destruct (buf_emit w (buf_of SL st)) as [e1 r1]. destruct (receive_all recv SL flag e1 _) as [st1 o1] eqn:R1.
+      destruct (tree_nil (other SR) st1).
+      + inversion H; subst. rewrite app_nil_r. eapply receive_all_is_rec; eauto.
+      + destruct (buf_emit w (buf_of SR st1)) as [e2 r2]. destruct (receive_all recv SR flag e2 _) as [st2 o2] eqn:R2.
+        inversion H; subst. apply Forall_app. split; eapply receive_all_is_rec; eauto.
+  Qed.
+
+  Lemma on_record_is_rec s r flag st st' o : on_record recv s r flag st = (st', o) -> Forall is_rec o.
+  Proof.
+    unfold on_record. destruct (et r =? zero_ns); [apply receive_is_rec | intro H; inversion H; constructor].
+  Qed.
+
+  (* a step whose emission ends with watermark W leaves the cut at W and the node running *)
+  Lemma receive_all_minwm s0 fl rs : forall stx sty oy, receive_all recv s0 fl rs stx = (sty, oy) -> minwm sty = minwm stx.
+  Proof.
+    induction rs as [|r rs IH]; intros stx sty oy H; [inversion H; reflexivity|].
+    cbn [receive_all] in H. destruct (receive recv s0 r fl stx) as [sta oa] eqn:Ra.
+    destruct (receive_all recv s0 fl rs sta) as [stb ob] eqn:Rb. inversion H; subst.
+    rewrite (IH _ _ _ Rb). unfold receive in Ra. destruct (stopped stx); [inversion Ra; reflexivity|].
+    destruct (recv _ _ _ _ _) as [[t' ro]|e|site]; inversion Ra; subst; destruct s0; reflexivity.
+  Qed.
+
+  Lemma process_minwm w flag st st' o : process_up_to recv w flag st = (st', o) -> minwm st' = minwm st.
+  Proof.
+    unfold process_up_to, flush_side. intro H.
+    destruct (tree_nil (other SL) st).
+    - destruct (tree_nil (other SR) st).
+      + inversion H; subst. reflexivity.
+      + destruct (buf_emit _ _) as [e2 r2]. destruct (receive_all recv SR flag e2 _) as [st2 o2] eqn:R2.
+        inversion H; subst. rewrite (receive_all_minwm _ _ _ _ _ _ R2). reflexivity.
+    - destruct (buf_emit _ _) as [e1 r1]. destruct (receive_all recv SL flag e1 _) as [sta oa] eqn:R1.
+      destruct (tree_nil (other SR) sta).
+      + inversion H; subst. rewrite (receive_all_minwm _ _ _ _ _ _ R1). reflexivity.
+      + destruct (buf_emit _ _) as [e2 r2]. destruct (receive_all recv SR flag e2 _) as [st2 o2] eqn:R2.
+        inversion H; subst. rewrite (receive_all_minwm _ _ _ _ _ _ R2). cbn [minwm set_buf]. rewrite (receive_all_minwm _ _ _ _ _ _ R1). reflexivity.
+  Qed.
+
+  (* a step whose emission ends with watermark W leaves the cut at W and the node running *)
+  Lemma jstep_wm_cut st sm st' o W : jstep recv false true st sm = (st', o ++ [WM W]) ->
+    minwm st' = W /\ stopped st' = false.
+  Proof.
+    destruct sm as [s m]. unfold jstep.
+    assert (Hno : forall o0, Forall is_rec o0 -> o0 = o ++ [WM W] -> False).
+    { intros o0 F E. exact (records_is_rec_last o0 o W F E). }
+    assert (Hnil : forall (stx : jstate), (stx, @nil event) = (st', o ++ [WM W]) -> minwm st' = W /\ stopped st' = false).
+    { intros stx H. injection H as _ E. destruct o; discriminate. }
+    destruct (phase st) as [|op flag| | |] eqn:Ph; try apply Hnil.
+    - destruct m as [r|w| |]; try apply Hnil.
+      + intro H. exfalso. pose proof (on_record_is_rec _ _ _ _ _ _ H) as F. exact (Hno _ F eq_refl).
+      + set (st0 := set_wm s w st). set (mn := if wm_of (other s) st0 <? wm_of s st0 then wm_of (other s) st0 else wm_of s st0).
+        destruct (minwm st0 <? mn); try apply Hnil.
+        destruct (process_up_to recv mn false (set_minwm mn st0)) as [st1 o1] eqn:Pr.
+        pose proof (process_is_rec _ _ _ _ _ Pr) as F.
+        destruct (stopped st1) eqn:St1; intro H; injection H as E1 E2.
+        * exfalso. exact (Hno _ F E2).
+        * apply app_inj_tail in E2. destruct E2 as [_ E]. inversion E; subst.
+          split; [|exact St1]. rewrite (process_minwm _ _ _ _ _ Pr). reflexivity.
+      + destruct (process_up_to recv (wm_of (other s) st) false _) as [st1 o1] eqn:Pr.
+        pose proof (process_is_rec _ _ _ _ _ Pr) as F.
+        destruct (stopped st1); intro H; injection H as E1 E2; exfalso; exact (Hno _ F E2).
+    - destruct (side_eqb s op); try apply Hnil.
+      destruct m as [r|w| |]; try apply Hnil.
+      + intro H. exfalso. pose proof (on_record_is_rec _ _ _ _ _ _ H) as F. exact (Hno _ F eq_refl).
+      + destruct (process_up_to recv w flag st) as [st1 o1] eqn:Pr.
+        pose proof (process_is_rec _ _ _ _ _ Pr) as F.
+        destruct (stopped st1) eqn:St1; intro H; injection H as E1 E2.
+        * exfalso. exact (Hno _ F E2).
+        * apply app_inj_tail in E2. destruct E2 as [_ E]. inversion E; subst. split; reflexivity.
+      + destruct (process_up_to recv max_wm flag st) as [st1 o1] eqn:Pr.
+        pose proof (process_is_rec _ _ _ _ _ Pr) as F.
+        destruct (stopped st1); intro H; injection H as E1 E2; exfalso; exact (Hno _ F E2).
+  Qed.
+
+  Lemma jrun_steps_snoc sigma : forall st st1 os sm st2 o,
+    jrun_steps recv false true st sigma = (st1, os) -> jstep recv false true st1 sm = (st2, o) ->
+    jrun_steps recv false true st (sigma ++ [sm]) = (st2, os ++ [o]).
+  Proof.
+    induction sigma as [|a sigma IH]; intros st st1 os sm st2 o H1 H2.
+    - inversion H1; subst. simpl. rewrite H2. reflexivity.
+    - cbn [jrun_steps app] in *. destruct (jstep recv false true st a) as [sta oa].
+      destruct (jrun_steps recv false true sta sigma) as [stb ob] eqn:R. inversion H1; subst.
+      rewrite (IH _ _ _ _ _ _ R H2). reflexivity.
+  Qed.
+
+  Lemma perm_filter (f : rec -> bool) a b : Permutation a b -> Permutation (filter f a) (filter f b).
+  Proof.
+    induction 1; simpl.
+    - constructor.
+    - destruct (f x); [constructor|]; assumption.
+    - destruct (f x), (f y); try apply Permutation_refl. apply perm_swap.
+    - eapply Permutation_trans; eauto.
+  Qed.
+
+  Lemma filter_all (f : rec -> bool) l : (forall x, In x l -> f x = true) -> filter f l = l.
+  Proof. induction l as [|a l IH]; intro H; simpl; [reflexivity|]. rewrite (H a (or_introl eq_refl)), IH; [reflexivity|]. intros; apply H; right; assumption. Qed.
+  Lemma filter_none (f : rec -> bool) l : (forall x, In x l -> f x = false) -> filter f l = [].
+  Proof. induction l as [|a l IH]; intro H; simpl; [reflexivity|]. rewrite (H a (or_introl eq_refl)), IH; [reflexivity|]. intros; apply H; right; assumption. Qed.
+
+  (* C19_at_watermark: when a step ends by emitting watermark W, the consolidated output so far is the join
+     of the records received so far that have no event time or an event time at or below W *)
+  Theorem sj_at_watermark l r sigma sm st os st' o W :
+    interleave l r (sigma ++ [sm]) -> scripts_ok l r -> scripts_timed l r ->
+    jrun_steps recv false true jinit sigma = (st, os) ->
+    jstep recv false true st sm = (st', o ++ [WM W]) ->
+    forall x, consolidate (records (concat os ++ o ++ [WM W])) x =
+              bj (consolidate (restrict_le W (msg_recs l))) (consolidate (restrict_le W (msg_recs r))) x.
+  Proof.
+    intros Hil Hok Htm Hrun Hstep x.
+    destruct (jstep_wm_cut _ _ _ _ _ Hstep) as [Hcut Hst].
+    pose proof (jrun_steps_snoc _ _ _ _ _ _ _ Hrun Hstep) as Hrun'.
+    destruct (run_from_init True l r _ st' _ Hil Hok (fun _ => Htm) Hrun' (stopped_not_panicked _ Hst))
+      as [P [[_ [_ HJ5]] [_ [Hperm [_ [_ [_ [_ Ht]]]]]]]].
+    assert (Hnd : phase st' <> Done) by (intro E; unfold stopped in Hst; rewrite E in Hst; discriminate).
+    destruct (Ht I Hnd) as [T1 [T2 _]]. rewrite Hcut in T1, T2.
+    rewrite concat_app in HJ5. simpl in HJ5. rewrite app_nil_r in HJ5. rewrite HJ5.
+    assert (E : forall s, Permutation (P s) (restrict_le W (match s with SL => msg_recs l | SR => msg_recs r end))).
+    { intro s. unfold restrict_le. eapply Permutation_trans; [|apply perm_filter; apply (Hperm s)].
+      rewrite filter_app, (filter_all _ (P s)), (filter_none _ (buf_recs (buf_of s st'))), app_nil_r by (try apply T1; try apply T2).
+      apply Permutation_refl. }
+    apply bag_join_ext; intros y _; apply consolidate_perm; [apply (E SL) | apply (E SR)].
+  Qed.
+
+  (* ---- the pairwise join of two changelogs has the bilinear bag as its consolidation ---- *)
+  Lemma consolidate_pairs lrec R x : length (vals lrec) = nl ->
+    consolidate (map (pair_rec lrec) (filter (fun r => key_match (kl (vals lrec)) (kr (vals r))) R)) x =
+    bj (consolidate [lrec]) (consolidate R) x.
+  Proof.
+    intro Hl. unfold bag_join. rewrite cons1.
+    induction R as [|r R IH]; [simpl; destruct (_ && _); [destruct (row_eqb _ _)|]; lia|].
+    cbn [filter]. destruct (key_match (kl (vals lrec)) (kr (vals r))) eqn:KM.
+    - cbn [map consolidate]. rewrite IH. clear IH. cbn [pair_rec vals].
+      rewrite (row_eqb_app_l nl _ _ _ Hl).
+      destruct (nl <=? length x)%nat; cbn [andb]; [|reflexivity].
+      destruct (row_eqb (vals lrec) (firstn nl x)) eqn:E1; cbn [andb].
+      + destruct (row_eqb (vals r) (skipn nl x)) eqn:E2.
+        * rewrite <- (key_match_cong _ _ _ _ (kl_resp _ _ E1) (kr_resp _ _ E2)), KM.
+          unfold sign, pair_rec. cbn [retr]. destruct (retr lrec), (retr r); cbn [xorb]; lia.
+        * destruct (key_match (kl (firstn nl x)) (kr (skipn nl x))); ring.
+      + destruct (key_match (kl (firstn nl x)) (kr (skipn nl x))); ring.
+    - rewrite IH. clear IH. cbn [consolidate].
+      destruct (nl <=? length x)%nat; cbn [andb]; [|reflexivity].
+      destruct (key_match (kl (firstn nl x)) (kr (skipn nl x))) eqn:KM2; [|reflexivity].
+      destruct (row_eqb (vals lrec) (firstn nl x)) eqn:E1; [|lia].
+      destruct (row_eqb (vals r) (skipn nl x)) eqn:E2; [|lia].
+      rewrite <- (key_match_cong _ _ _ _ (kl_resp _ _ E1) (kr_resp _ _ E2)), KM in KM2. discriminate.
+  Qed.
+
+  Theorem join_list_bag L R x : (forall a, In a L -> length (vals a) = nl) ->
+    consolidate (join_list kl kr L R) x = bj (consolidate L) (consolidate R) x.
+  Proof.
+    induction L as [|a L IH]; intro Ha.
+    - simpl. unfold bag_join. destruct (_ && _); lia.
+    - cbn [join_list flat_map]. rewrite consolidate_app. fold (join_list kl kr L R).
+      rewrite IH by (intros; apply Ha; right; assumption).
+      rewrite consolidate_pairs by (apply Ha; left; reflexivity).
+      rewrite <- bag_join_add_l. apply bag_join_ext; intros y _; [|reflexivity]. simpl. lia.
+  Qed.
 End Inner.
+
+(* ---- schedules: the executable merge produces interleavings; projections recover the scripts ---- *)
+Lemma merge_interleave c : forall l r sigma, merge c l r = Some sigma -> interleave l r sigma.
+Proof.
+  induction c as [|b c IH]; intros l r sigma H.
+  - destruct l, r; simpl in H; try discriminate. inversion H. constructor.
+  - destruct b; simpl in H.
+    + destruct l as [|m l']; [discriminate|]. destruct (merge c l' r) as [s'|] eqn:E; [|discriminate].
+      inversion H; subst. constructor. apply IH. exact E.
+    + destruct r as [|m r']; [discriminate|]. destruct (merge c l r') as [s'|] eqn:E; [|discriminate].
+      inversion H; subst. constructor. apply IH. exact E.
+Qed.
+
+Lemma interleave_proj l r sigma : interleave l r sigma -> proj_side SL sigma = l /\ proj_side SR sigma = r.
+Proof.
+  induction 1 as [|m l r s H [IH1 IH2]|m l r s H [IH1 IH2]]; simpl; [auto| |]; unfold proj_side in *; simpl; rewrite IH1, IH2; auto.
+Qed.
+
+Lemma proj_interleave sigma : interleave (proj_side SL sigma) (proj_side SR sigma) sigma.
+Proof.
+  induction sigma as [|[s m] sigma IH]; [constructor|]. unfold proj_side in *. destruct s; simpl; constructor; exact IH.
+Qed.
+
+Lemma proj_side_app s a b : proj_side s (a ++ b) = proj_side s a ++ proj_side s b.
+Proof. unfold proj_side. apply flat_map_app. Qed.
+Lemma msg_recs_app a b : msg_recs (a ++ b) = msg_recs a ++ msg_recs b.
+Proof. unfold msg_recs. apply flat_map_app. Qed.
+
+Lemma plain_script_prefix a b : plain_script (a ++ b) = true -> plain_script a = true.
+Proof.
+  induction a as [|m a IH]; [reflexivity|]. destruct m; simpl; auto.
+  destruct a as [|m' a']; [reflexivity|]. simpl. discriminate.
+Qed.
+
+Lemma well_timed_prefix a : forall w b, well_timed_from w (a ++ b) = true -> well_timed_from w a = true.
+Proof.
+  induction a as [|m a IH]; intros w b H; [reflexivity|]. destruct m; simpl in *; eauto.
+  - apply andb_prop in H. destruct H as [H1 H2]. rewrite H1. eauto.
+  - apply andb_prop in H. destruct H as [H1 H2]. rewrite H1. eauto.
+Qed.
+
+Lemma msg_recs_script es : msg_recs (script es) = records es.
+Proof.
+  unfold script. rewrite msg_recs_app. simpl. rewrite app_nil_r. unfold msg_recs, records.
+  induction es as [|e es IH]; [reflexivity|]. destruct e; simpl; rewrite IH; reflexivity.
+Qed.
+
+Lemma plain_script_script es : plain_script (script es) = true.
+Proof. unfold script. induction es as [|e es IH]; [reflexivity|]. destruct e; exact IH. Qed.
+
+(* the statement of sj_at_watermark for a prefix of a complete schedule *)
+Theorem sj_at_watermark_prefix kl kr nl : key_respects kl -> key_respects kr ->
+  forall L R pre sm post st os st' o W,
+  interleave L R (pre ++ sm :: post) -> scripts_ok nl L R -> scripts_timed L R ->
+  sj_run_steps kl kr jinit pre = (st, os) -> sj_step kl kr st sm = (st', o ++ [WM W]) ->
+  forall x, consolidate (records (concat os ++ o ++ [WM W])) x =
+            bag_join kl kr nl (consolidate (restrict_le W (received SL (pre ++ [sm]))))
+                              (consolidate (restrict_le W (received SR (pre ++ [sm])))) x.
+Proof.
+  intros Hkl Hkr L R pre sm post st os st' o W Hil [Hl [Hr Ha]] [Tl Tr] Hrun Hstep.
+  destruct (interleave_proj _ _ _ Hil) as [EL ER].
+  replace (pre ++ sm :: post) with ((pre ++ [sm]) ++ post) in EL, ER by (rewrite <- app_assoc; reflexivity).
+  rewrite proj_side_app in EL, ER.
+  unfold received.
+  apply (sj_at_watermark kl kr nl Hkl Hkr (proj_side SL (pre ++ [sm])) (proj_side SR (pre ++ [sm])) pre sm st os st' o W).
+  - apply proj_interleave.
+  - split; [apply (plain_script_prefix _ (proj_side SL post)); rewrite EL; exact Hl|].
+    split; [apply (plain_script_prefix _ (proj_side SR post)); rewrite ER; exact Hr|].
+    intros x Hin. apply Ha. rewrite <- EL, msg_recs_app. apply in_or_app. left. exact Hin.
+  - split; [apply (well_timed_prefix _ _ (proj_side SL post)); rewrite EL; exact Tl | apply (well_timed_prefix _ _ (proj_side SR post)); rewrite ER; exact Tr].
+  - exact Hrun.
+  - exact Hstep.
+Qed.
+
+(* ---- the pinned tree ---- *)
+Lemma pinned_switch_loses_pairs :
+  interleave w19_left w19_right w19_sigma /\
+  let '(st, out) := sj_run_pinned k1 k1 jinit w19_sigma in
+  phase st = Done /\
+  consolidate (records out) [VInt 1; VInt 100; VInt 1; VInt 200] <>
+  bag_join k1 k1 2 (consolidate (msg_recs w19_left)) (consolidate (msg_recs w19_right)) [VInt 1; VInt 100; VInt 1; VInt 200].
+Proof.
+  split; [repeat constructor|]. vm_compute. split; [reflexivity | discriminate].
+Qed.
+
+Lemma pinned_switch_loses_pairs_nullfix :
+  let '(st, out) := sj_run_nullfix_only k1 k1 jinit w19_sigma in
+  phase st = Done /\
+  consolidate (records out) [VInt 1; VInt 100; VInt 1; VInt 200] <>
+  bag_join k1 k1 2 (consolidate (msg_recs w19_left)) (consolidate (msg_recs w19_right)) [VInt 1; VInt 100; VInt 1; VInt 200].
+Proof. vm_compute. split; [reflexivity | discriminate]. Qed.
+
+Lemma pinned_null_keys_match :
+  interleave wnull_left wnull_right wnull_sigma /\
+  let '(st, out) := sj_run_pinned k1 k1 jinit wnull_sigma in
+  phase st = Done /\
+  consolidate (records out) [VNull; VInt 100; VNull; VInt 200] <>
+  bag_join k1 k1 2 (consolidate (msg_recs wnull_left)) (consolidate (msg_recs wnull_right)) [VNull; VInt 100; VNull; VInt 200].
+Proof.
+  split; [repeat constructor|]. vm_compute. split; [reflexivity | discriminate].
+Qed.
+
+Lemma pinned_outer_null_keys_match :
+  let '(st, out) := oj_run_pinned k1 k1 true true 2 2 jinit wnull_sigma in
+  phase st = Done /\
+  ~ (forall x, consolidate (records out) x =
+               consolidate (outer_list k1 k1 true true 2 2 (msg_recs wnull_left) (msg_recs wnull_right)) x).
+Proof.
+  vm_compute. split; [reflexivity|]. intro H. specialize (H [VNull; VInt 100; VNull; VInt 200]). vm_compute in H. discriminate.
+Qed.
+
+(* the fixed model on the same witnesses *)
+Lemma fixed_on_witnesses :
+  (let '(st, out) := sj_run k1 k1 jinit w19_sigma in
+   phase st = Done /\ bag_eqb (records out) (join_list k1 k1 (msg_recs w19_left) (msg_recs w19_right)) = true) /\
+  (let '(st, out) := sj_run k1 k1 jinit wnull_sigma in
+   phase st = Done /\ bag_eqb (records out) (join_list k1 k1 (msg_recs wnull_left) (msg_recs wnull_right)) = true) /\
+  (let '(st, out) := oj_run k1 k1 true true 2 2 jinit wnull_sigma in
+   phase st = Done /\ bag_eqb (records out) (outer_list k1 k1 true true 2 2 (msg_recs wnull_left) (msg_recs wnull_right)) = true).
+Proof. vm_compute. repeat split. Qed.
